@@ -200,6 +200,26 @@ def s12_config_setters(ctx):
         cs = calls_in([b], "storage::bitcask::Bitcask::open")
         good = len(cs) == 1 and arg_origin(b, cs[0][2], 0) == ("arg", "self")
         r.add(fam_name(b), "Config::open(self) opens the store with self", good, short_span(b.span))
+    # nothing rewrites a setting after the setters: the configuration in effect is the one given
+    n_w = 0
+    for b in shipped_bodies(prog):
+        is_setter = b.name.startswith("storage::bitcask::config::Config::") and b.name.split("::")[-1] in SETTERS
+        if is_setter or "_serde" in b.path or "Default" in b.path:
+            continue
+        for bb in sorted(b.live_blocks()):
+            for st in b.blocks[bb]["stmts"]:
+                if st["k"] != "assign" or not st["pl"]["p"]:
+                    continue
+                flds = [e[2] for e in st["pl"]["p"] if e[0] == "f"]
+                if not flds:
+                    continue
+                base_ty = b.local_ty(st["pl"]["l"])
+                through_conf = "conf" in flds[:-1]
+                cfg_base = any(x in base_ty.split("<")[0] for x in ("storage::bitcask::config::Config", "storage::bitcask::config::MergeStrategy", "storage::bitcask::config::MergeTriggers", "storage::bitcask::config::MergeThresholds"))
+                if through_conf or cfg_base:
+                    n_w += 1
+                    r.bad(fam_name(b), "writes setting %s" % ".".join(flds), short_span(st.get("span")), "a setting is rewritten outside the setters: the store does not run with the configuration it was given (a threshold or limit the user chose is silently replaced)")
+    r.add("storage::bitcask::config", "no setting is rewritten outside the setters", n_w == 0, "src/storage/bitcask/config.rs")
     return r
 
 
